@@ -18,6 +18,7 @@
 -/
 import GojaModel.Base.Proto
 import GojaModel.C12.Model
+import GojaModel.C12.Radix
 
 namespace GojaModel.C12.Driver
 open GojaModel GojaModel.C12
@@ -162,6 +163,10 @@ def checkRadix (f : F64) (r : Nat) (text : List Char) : String :=
       else if ip.length > 1 && ip.head? == some 0 then bad "leading-zero"
       else if digitsStr ip ++ (if hasDot then '.' :: digitsStr fp else []) != body then bad "charset"
       else if !isNearestMag (natOfDigits r (ip ++ fp)) (r ^ fp.length) f.ord then bad "radix-not-round-trip"
+      -- mechanism model (Radix.lean, transcription of ftoa.FToBaseStr): the exact string is predicted
+      else if toBaseStr f r != some text then
+        bad ("radix-model-mismatch model=" ++ (match toBaseStr f r with
+          | some t => String.ofList (t.take 60) | none => "<fuel>"))
       else ok ("radix" ++ (if hasDot then ":frac" else ":int"))
 
 def parsedTag : Parsed → String
